@@ -131,21 +131,63 @@ class ILock:
         self.release()
 
 
+class _ThreadingShim:
+    """Stands in for the `threading` module inside psiaudio.buffer while a schedule runs: every RLock the class
+    creates (in __init__ or, if the code does so, later) is an ILock, i.e. a re-entrant lock with the semantics of
+    threading.RLock whose contention the controller can see."""
+
+    def __init__(self, ctl):
+        self._ctl = ctl
+
+    def RLock(self):
+        return ILock(self._ctl)
+
+    def __getattr__(self, name):
+        return getattr(threading, name)
+
+
 class Controller:
     def __init__(self, sc, policy, opcode_funcs=()):
         self.opcode_funcs = set(opcode_funcs)   # step these functions bytecode by bytecode
         self.sc = sc
         self.policy = policy
-        self.buf = make_buffer(sc)
-        self.buf._lock = ILock(self)
+        self.current = None
+        self.st = {'W': 'ready', 'R': 'ready'}
+        self._patched = self._patch()
+        try:
+            self.buf = make_buffer(sc)
+        except BaseException:
+            self._unpatch()
+            raise
+        # A lock object of any other kind (a dummy, a property, ...) is left as it is: the schedule then runs with
+        # whatever exclusion it really provides.
+        lock = self.buf.__dict__.get('_lock')
+        if type(lock) is type(threading.RLock()):
+            self.buf._lock = ILock(self)
         self.file = buffer_file()
         self.go = {'W': threading.Semaphore(0), 'R': threading.Semaphore(0)}
         self.back = threading.Semaphore(0)
         self.st = {'W': 'ready', 'R': 'ready'}
         self.res = {'W': [], 'R': []}
-        self.current = None
         self.trace = []
         self.error = None
+
+    def _patch(self):
+        import psiaudio.buffer as B
+        saved = {}
+        for k, v in list(vars(B).items()):
+            if v is threading:
+                saved[k] = v
+                setattr(B, k, _ThreadingShim(self))
+            elif v is threading.RLock:
+                saved[k] = v
+                setattr(B, k, lambda: ILock(self))
+        return saved
+
+    def _unpatch(self):
+        import psiaudio.buffer as B
+        for k, v in self._patched.items():
+            setattr(B, k, v)
 
     # ---- worker side --------------------------------------------------------
     def park(self, me, st='ready'):
@@ -197,6 +239,12 @@ class Controller:
 
     # ---- controller side -------------------------------------------------------
     def run(self):
+        try:
+            return self._run()
+        finally:
+            self._unpatch()
+
+    def _run(self):
         ths = [threading.Thread(target=self._worker, args=(t, self.sc[k]), daemon=True)
                for t, k in (('W', 'writer'), ('R', 'reader'))]
         for t in ths:
@@ -294,30 +342,102 @@ def _torn(sc, tr, out, serial, opcode_funcs=()):
 # scenarios
 # --------------------------------------------------------------------------
 
-def scenarios(rng, count):
-    """Writer/reader operation lists over a small buffer (capacity 8 samples at fs = 10)."""
-    fixed = [
-        {'writer': [['append_data', 3]], 'reader': [['get_latest', -0.4]]},
-        {'writer': [['append_data', 3]], 'reader': [['get_range_filled', 0.2, 1.4, -1.0]]},
-        {'writer': [['append_data', 12]], 'reader': [['get_latest', -0.5, 0, -1.0]]},
-        {'writer': [['invalidate_samples', 7]], 'reader': [['get_latest', -0.3]]},
-        {'writer': [['resize', 1.6]], 'reader': [['get_latest', -0.6, 0, -1.0]]},
-        {'writer': [['append_data', 2], ['invalidate', 0.9]], 'reader': [['get_range'], ['get_samples_lb']]},
-        {'writer': [['append_data', 4]], 'reader': [['get_time_lb'], ['get_time_ub']]},
-        {'writer': [['append_data', 3]], 'reader': [['get_range_samples', 6, 10]]},
-    ]
+FIXED = [
+    {'writer': [['append_data', 3]], 'reader': [['get_latest', -0.4]]},
+    {'writer': [['append_data', 3]], 'reader': [['get_range_filled', 0.2, 1.4, -1.0]]},
+    {'writer': [['append_data', 12]], 'reader': [['get_latest', -0.5, 0, -1.0]]},
+    {'writer': [['invalidate_samples', 7]], 'reader': [['get_latest', -0.3]]},
+    {'writer': [['resize', 1.6]], 'reader': [['get_latest', -0.6, 0, -1.0]]},
+    {'writer': [['append_data', 2], ['invalidate', 0.9]], 'reader': [['get_range'], ['get_samples_lb']]},
+    {'writer': [['append_data', 4]], 'reader': [['get_time_lb'], ['get_time_ub']]},
+    {'writer': [['append_data', 3]], 'reader': [['get_range_samples', 6, 10]]},
+]
+
+
+def systematic(rng):
+    """Every mutation in every region against every read form, on every kind of state.
+
+    States (capacity 8 samples at fs = 10): partly filled, exactly full, wrapped (old samples pushed out), filled in
+    two chunks; 1-D, one and two channels.  Writer: append smaller than / equal to / larger than the room left and
+    the capacity; invalidate (samples and seconds) before the window, at its lower bound, inside, at the newest
+    sample, at and beyond the upper bound; resize smaller / to the same size / larger / larger and back.  Reader:
+    every public read with its defaults, inside, overlapping and outside the window, with and without fill.
+    Each writer is paired with two readers (the pairing rotates with the seed)."""
+    states = [([5], None), ([8], None), ([11], None), ([3, 4], None), ([11], 2), ([5], 2), ([8], 1), ([2, 9, 3], None)]
+
+    def writers(pre):
+        hi = sum(pre)
+        lo = max(0, hi - 8)
+        free = 8 - (hi - lo)
+        w = [[['append_data', 1]], [['append_data', max(1, free)]], [['append_data', free + 1]],
+             [['append_data', 8]], [['append_data', 9]], [['append_data', 12]],
+             [['append_data', 2], ['append_data', 7]]]
+        for i in sorted({max(0, lo - 2), lo, lo + 1, (lo + hi) // 2, hi - 1, hi, hi + 3}):
+            w.append([['invalidate_samples', i]])
+            w.append([['invalidate', i / 10]])
+        w.append([['invalidate_samples', (lo + hi) // 2], ['append_data', 3]])
+        w.append([['invalidate_samples', lo], ['invalidate_samples', max(0, lo - 1)]])
+        for size in (0.3, 0.5, 0.8, 1.2, 1.6):
+            w.append([['resize', size]])
+        w.append([['resize', 1.6], ['resize', 0.8]])
+        w.append([['resize', 0.4], ['append_data', 6]])
+        w.append([['append_data', 3], ['resize', 1.2]])
+        return w, lo, hi
+
+    def readers(lo, hi):
+        t = lambda k: k / 10
+        return [[['get_latest', -0.4]], [['get_latest', -0.4, 0, -1.0]], [['get_latest', -0.5, -0.2]],
+                [['get_latest', -1.5, 0, -1.0]], [['get_latest', -0.3, 0.2, -1.0]],
+                [['get_range']], [['get_range', t(lo + 1), t(hi - 1)]], [['get_range', t(lo + 1)]],
+                [['get_range', None, t(hi - 1)]], [['get_range', t(max(0, lo - 1)), t(hi)]],
+                [['get_range_filled', t(lo - 2), t(hi + 2), -1.0]], [['get_range_filled', t(lo + 1), t(hi - 1), -1.0]],
+                [['get_range_filled', t(hi), t(hi + 3), -1.0]], [['get_range_filled', t(lo - 4), t(lo), -1.0]],
+                [['get_range_samples']], [['get_range_samples', lo + 1, hi - 1]], [['get_range_samples', lo + 2]],
+                [['get_range_samples', None, hi - 2]], [['get_range_samples', hi - 1, hi + 2]],
+                [['get_samples_lb']], [['get_samples_ub']], [['get_time_lb']], [['get_time_ub']],
+                [['get_samples_lb'], ['get_samples_ub']], [['get_time_ub'], ['get_range']],
+                [['get_samples_ub'], ['get_range_samples']]]
+
     out = []
-    for i in range(count):
-        if i < len(fixed):
-            sc = dict(fixed[i])
-        else:
-            sc = {'writer': [rand_writer(rng) for _ in range(rng.randint(1, 2))],
-                  'reader': [rand_reader(rng) for _ in range(rng.randint(1, 2))]}
-        pre = rng.choice([5, 8, 11])
-        nch = rng.choice([None, None, 2])
-        if i < len(fixed):
-            pre, nch = 5, None          # partly filled: `_ilb` still moves
-        sc.update({'fs': 10.0, 'size': 0.8, 'prefill': [pre], 'n_channels': nch})
+    rot = rng.randint(0, 10 ** 6)
+    k = 0
+    for si, (pre, nch) in enumerate(states):
+        ws, lo, hi = writers(pre)
+        rs = readers(lo, hi)
+        for wi, w in enumerate(ws):
+            if si > 0 and (wi + si + rot) % 4 != 0:
+                continue            # every writer on the first state; on the other states a rotating quarter
+            for j in range(2):
+                r = rs[(rot + 7 * k + 11 * j) % len(rs)]
+                k += 1
+                out.append({'writer': w, 'reader': r, 'fs': 10.0, 'size': 0.8, 'prefill': list(pre), 'n_channels': nch})
+    return out
+
+
+def scenarios(rng, count, sysn=0):
+    """Writer/reader operation lists over a small buffer (capacity 8 samples at fs = 10): the fixed ones first,
+    then `sysn` of the systematic list (a seed-dependent sample, all of it when sysn is None), then random ones
+    up to `count` in total."""
+    out = []
+    for f in FIXED[:count]:
+        sc = dict(f)
+        # partly filled: `_ilb` still moves
+        sc.update({'fs': 10.0, 'size': 0.8, 'prefill': [5], 'n_channels': None})
+        out.append(sc)
+    sy = systematic(rng)
+    if sysn is not None:
+        idx = list(range(len(sy)))
+        rng.shuffle(idx)
+        sy = [sy[i] for i in sorted(idx[:sysn])]
+    out += sy
+    while len(out) < count:
+        sc = {'writer': [rand_writer(rng) for _ in range(rng.randint(1, 2))],
+              'reader': [rand_reader(rng) for _ in range(rng.randint(1, 3))]}
+        if rng.random() < 0.15:          # the writer also reads between its mutations
+            sc['writer'].insert(rng.randint(0, len(sc['writer'])), rand_reader(rng))
+        pre = rng.choice([[5], [8], [11], [3, 4], [1], [8, 8]])
+        nch = rng.choice([None, None, 2, 1])
+        sc.update({'fs': 10.0, 'size': rng.choice([0.8, 0.8, 0.3, 1.6]), 'prefill': pre, 'n_channels': nch})
         out.append(sc)
     return out
 
@@ -325,19 +445,25 @@ def scenarios(rng, count):
 def rand_writer(rng):
     k = rng.randint(0, 4)
     if k == 0:
-        return ['append_data', rng.randint(1, 5)]
+        return ['append_data', rng.randint(1, 8)]
     if k == 1:
-        return ['append_data', rng.randint(9, 12)]
+        return ['append_data', rng.randint(9, 20)]
     if k == 2:
-        return ['invalidate_samples', rng.randint(2, 12)]
+        return ['invalidate_samples', rng.randint(0, 18)]
     if k == 3:
-        return ['invalidate', rng.randint(2, 12) / 10]
-    return ['resize', rng.choice([1.2, 1.6])]
+        return ['invalidate', rng.randint(0, 18) / 10]
+    return ['resize', rng.choice([0.3, 0.5, 0.8, 1.2, 1.6])]
 
 
 def rand_reader(rng):
-    k = rng.randint(0, 6)
+    k = rng.randint(0, 8)
     a = rng.randint(1, 6) / 10
+    if k == 7:
+        return rng.choice([['get_range', rng.randint(0, 10) / 10], ['get_range', None, rng.randint(3, 12) / 10],
+                           ['get_range_samples', rng.randint(0, 10)], ['get_range_samples', None, rng.randint(3, 12)],
+                           ['get_range_samples']])
+    if k == 8:
+        return ['get_latest', -a - 0.3, -a]
     if k == 0:
         return ['get_latest', -a]
     if k == 1:
